@@ -2,6 +2,7 @@
 import itertools
 from ..facts import Program, AnalysisBroken
 from .. import q
+from . import c18, c25
 
 CLAIM = {
     'text': 'Who-may-write and path rules on the session counters: the send counter is incremented at exactly one site, only '
@@ -14,6 +15,7 @@ CLAIM = {
     'technique': 'who-may-write table + dominance + per-path increment counting over the clang CFG',
 }
 UNITS = ['runtime/session.cpp']
+MORE_UNITS = ['runtime/connection.cpp', 'runtime/persist.cpp', 'runtime/filepersist.cpp']
 EXPLANATION = (
     "Decided: R16.1 single increment site of the send counter in send_process, dominated by !is_dup, unreachable from the "
     "failed-send edge, and the frozen set of functions that may write the counter; R16.2 both `new msg_seq_num(...)` take "
@@ -21,7 +23,7 @@ EXPLANATION = (
     "later increments equals the offset added to the counter in the put (path-sensitive on immutable bool locals); R16.4 in "
     "Session::process every path from an increment of the receive counter to a return passes update_persist_seqnums; R16.5 "
     "recover_seqnums assigns both counters from Persister::get's out-parameters and start()/handle_logon apply explicit "
-    "numbers after recovery. NOT decided: consecutiveness/uniqueness over histories and threads.")
+    "numbers after recovery. R16.6 every send_process call outside the writer thread holds the connection spin lock unconditionally (rule of C25 R25.1); R16.7 both persisters seed the retransmission context with the session's next send number, which retrans_callback writes back into the counter (rule of C18 R18.6). NOT decided: consecutiveness/uniqueness over histories and threads.")
 
 S = 'FIX8::Session::'
 SEND_SEQ, RECV_SEQ = S + '_next_send_seq', S + '_next_receive_seq'
@@ -180,6 +182,13 @@ def run(ctx):
                 wv = c.vertex_of(w)
                 ctx.check(wv in c.reach_from(rv) and rv not in c.reach_from(wv), 'R16.5', '%s#override.%s' % (fq, tag), w.loc,
                           'explicit %s number is applied after recovery, never overwritten by it' % tag)
+    # R16.6 / R16.7 the two places outside send_process that decide which number the next message gets
+    prog2 = Program(UNITS + MORE_UNITS)
+    ctx.units.update(MORE_UNITS)
+    c25.lock_rule(ctx, prog2, 'R16.6')
+    c18.retrans_seed_rule(ctx, prog2, 'R16.7')
+    ctx.floor('R16.6', 5)
+    ctx.floor('R16.7', 2)
     ctx.floor('R16.1', 12)
     ctx.floor('R16.2', 2)
     ctx.floor('R16.3', 2)
